@@ -31,32 +31,34 @@ PENDING = {
 
 CHECKS = {
  'C10': dict(
-   text="Proof, by Verus, of contracts on the real text of RegisterAllocator::{new,alloc,free,reserve_range,save,max_used,current} and 23 BytecodeBuilder methods "
+   text="Proof, by Verus, of contracts on the real text of all 8 RegisterAllocator methods and 31 BytecodeBuilder methods "
         "(extracted from /repo and annotated in place on every run): abstract view = set of handed-out registers, representation invariant, fresh/exact/no-truncation "
         "postconditions for u8 registers, u16 constant indices and u32 jump operands, explicit-error-only-at-the-limit clauses, full frames. By induction over the "
         "invariant the clauses hold for every call sequence of any length - exactly the 255th-register / 65536th-constant / 2^32 corner the tests never reach. "
-        "RegisterAllocator::restore is covered by BOUNDED Kani harnesses only (its contract is assumed in the Verus unit).",
-   note="Trusted: Verus+Z3, vstd specs, opaque stand-ins for JsError/JsString/FxHashMap, assumed contract of restore (bounded Kani cross-check), Option::is_none_or std contract. "
-        "NOT carried: that compile_* callers respect the allocator protocol (free only owned registers, no use after free) and the unchecked `len as u8` narrowing at call sites "
-        "(syntactic side obligation + native replay, see DESIGN §4.1).",
+        "No clause is assumed; Vec::retain / binary_search_by_key / hash-map std contracts are trusted wrappers, cross-checked by BOUNDED Kani harnesses where possible.",
+   note="Trusted: Verus+Z3, vstd specs, opaque stand-ins for JsError/JsString, finite-map model of FxHashMap, std contracts of Vec::retain (R10) and Option::is_none_or. "
+        "NOT carried by proof: that compile_* callers respect the allocator protocol (free only owned registers, no use after free); their size behaviour is covered only by the "
+        "side battery (410 programs over 14 construct families, sizes 0..600), which is testing, not proof (DESIGN §4.1).",
    technique="contract-based deductive verification (Verus requires/ensures + representation invariant on in-place annotated real code; Kani bounded harness for restore)",
    ref="§4.1"),
  'C13': dict(
-   text="Proof (mark-bit layer only): Kani contracts on the real ChunkBitmask::{get,set,clear,default,iter_unmarked} and UnmarkedIter::next - including the unsafe "
+   text="Proof (mark-bit layer and dropped-heap handle layer only): Kani contracts on the real ChunkBitmask::{get,set,clear,default,iter_unmarked} and UnmarkedIter::next - including the unsafe "
         "get_unchecked accesses - over all 2^256 masks and all indices < 256: exact bit semantics, no out-of-bounds access, and iter_unmarked enumerates exactly the clear "
-        "bits below len in ascending order (init + step contracts, induction on position argued in 3 lines). Loop in next() unwound past its structural bound with the "
-        "unwinding assertion on, so the harnesses are complete, not bounded.",
-   note="Trusted: Kani/CBMC. NOT carried (and not claimed): guard reachability = liveness, Space::mark traversal, sweep/pool reuse, Gc clone/drop ref-counts, heap-drop "
-        "safety - they live in Rc<RefCell>/NonNull code outside both verifiers (DESIGN §4.4). Callers are assumed to pass index % CHUNK_CAPACITY and len <= 256.",
+        "bits below len in ascending order (init + step contracts, induction on position argued in 3 lines); and on Gc::clone / Gc::drop / Guard::guard / Guard::drop for a handle "
+        "or guard whose heap has been dropped (the box is really freed in the harness): no access to the freed box, clone returns the same handle, guard is a no-op. "
+        "Loops unwound past their structural bound with the unwinding assertion on, so the harnesses are complete, not bounded.",
+   note="Trusted: Kani/CBMC. NOT carried (and not claimed): guard reachability = liveness, Space::mark traversal, sweep/pool reuse, stale-handle ref-counts after slot reuse "
+        "- they live in Rc<RefCell>/NonNull code outside both verifiers (DESIGN §4.4). Callers are assumed to pass index % CHUNK_CAPACITY and len <= 256.",
    technique="contract-based deductive verification (Kani assume-pre/call/assert-post contracts inside the real crate, full input domain, loop-free or width-bounded)",
    ref="§4.4"),
  'C20': dict(
    text="Proof (span-recording layer only): Verus contracts on the real BytecodeBuilder::emit and every other builder method - the position attached to an instruction is "
         "the span current at emission (lookup(source_map, index).start == current_span.start), emitting never disturbs earlier instructions' spans, no other method touches "
-        "the map, finish moves it unchanged; Kani contracts on Lexer::advance for every Unicode scalar value (line/column/byte stepping, LF/LS/PS), make_span, and bounded "
-        "harnesses for checkpoint/restore and get_source_location == lookup.",
+        "the map, finish moves it unchanged, get_source_location == lookup for every sorted map; Kani contracts on Lexer::advance for every Unicode scalar value "
+        "(line/column/byte stepping, LF/LS/PS) and make_span; bounded Kani harnesses for checkpoint/restore; a bounded native enumeration (all sources of length <= 5 over 14 symbols) "
+        "for token spans and the parser's two re-scan entry points, which Kani could not decide.",
    note="Trusted: Verus+Z3, Kani/CBMC, Option::is_none_or std contract. NOT carried: parser token->AST spans, compile_* calling set_span with the node being compiled, "
-        "build_stack_trace's frame walk and function names, error formatting (DESIGN §4.2). get_source_location and checkpoint/restore are BOUNDED stand-ins.",
+        "build_stack_trace's frame walk and function names, error formatting (DESIGN §4.2). checkpoint/restore and the token-span enumeration are BOUNDED stand-ins, never counted as proved.",
    technique="contract-based deductive verification (Verus postconditions + frame conditions on in-place annotated real code; Kani contracts for lexer stepping)",
    ref="§4.2"),
  'C15': dict(
